@@ -130,6 +130,8 @@ PROOFS = {
     "pad_counter": {"module": "PadCounter",
                     "claim": "for every payload length n the iterator encoder's 8-bit wrapping pad counter yields a pad count p <= 3 with (n + p) % 4 = 0",
                     "runs": [("base", ["--init=Init", "--inv=IndInv", "--length=0"]), ("step", ["--init=IndInit", "--inv=IndInv", "--length=1"])]},
+    "pad_counter_tlaps": {"module": "PadCounterProof", "tool": "tlapm",
+                          "claim": "TLAPS theorem Spec => []IndInv for the iterator encoder's wrapping 8-bit pad counter (same statement as pad_counter, proved deductively: 47 obligations, Z3 + PTL)"},
     "matcher": {"module": "Matcher",
                 "claim": "after any number of noise bytes the repaired start-sequence matcher holds exactly the longest suffix that is a prefix of the start sequence, and ndisc + ninit = bytes since the boundary; "
                          "the matcher as found (drop) fails the induction step",
@@ -198,8 +200,8 @@ PROPS = {
                   "encode::<Vec>, encode::<ArrayBuf<N>>, encode_streaming and decoded by 11-14 front-end configurations; one record per (payload, frame); non-trivial = every record"),
                 mc={"quick": ["roundtrip_pay", "contract_pay"], "thorough": ["roundtrip_pay", "contract_pay"]},
                 steps=[{"cmd": "c01", "judge": "J_C01"}]),
-    "C02": dict(T("every ok event of the real decoder front-ends (push, decode_streaming, SmlReader over iterator / io::Read) on ADV / INFRAME / HIST token trees, corpus dumps and "
-                  "seeded mutations; a record is (payload, tail of the consumed prefix); distinct = distinct (prefix tail, payload) pairs; every record is an accepted frame"),
+    "C02": dict(T("every ok event of the real decoder front-ends (push, decode_streaming, SmlReader over iterator / io::Read) on ADV / INFRAME / PADX / NEARSTART / HIST token trees, corpus dumps and "
+                  "seeded mutations; a record is (payload, tail of the consumed prefix); distinct = distinct (prefix tail, payload) pairs; every record is an accepted frame; front-ends include small fixed capacities (1/4/6/9) and decoders built with from_buf on a non-empty buffer"),
                 mc={"quick": ["sound_adv", "contract_adv"], "thorough": ["sound_adv", "contract_adv", "total_hist", "sim_hist"]},
                 steps=[{"cmd": "c02", "judge": "J_C02"}]),
     "C05": dict(T("push/finalize/reset histories (HIST), INFRAME, NOISE, corpus, mutations on Decoder<Vec> and Decoder<ArrayBuf<N>> N in {0,1,2,3,8}, each followed by finalize + empty frame + finalize; "
@@ -209,9 +211,9 @@ PROPS = {
                        {"cmd": "c05", "judge": "J_Conf", "profile": "checked", "reuse": True, "drift": True}]),
     "C07": dict(T("same payload families as C01; both encoders compared with Frame.Canonical; ArrayBuf capacities around the frame length; 5 extra next() calls after the iterator ended"),
                 mc={"quick": ["encoders"], "thorough": ["encoders"]},
-                proofs=["pad_counter"],
+                proofs=["pad_counter", "pad_counter_tlaps"],
                 steps=[{"cmd": "c07", "judge": "J_C07"}]),
-    "C08": dict(T("14 idle histories (new, after ok / invalid message / invalid escape - also with error bytes ending in 0x1b -, after reset / finalize - also called while noise or a partial start sequence is pending) x all noise strings over {1b,01,55} up to length 7/9 + random noise over all byte values (incl. partial start sequences) x 5 payloads; every cut point of 265+ frames "
+    "C08": dict(T("14 idle histories (new, after ok / invalid message / invalid escape - also with error bytes ending in 0x1b -, after reset / finalize - also called while noise or a partial start sequence is pending) x all noise strings over {1b,01,55} up to length 7/9 + random noise over all byte values (incl. partial start sequences) x 5 payloads; seven histories ending in an out-of-memory error of ArrayBuf<8>; every cut point of 265+ frames "
                   "followed by 3 frames; the antecedent (no start sequence in noise / no escape in progress) is evaluated by the monitor"),
                 mc={"quick": ["resync_noise", "resync_calls", "contract_noise"], "thorough": ["resync_noise", "resync_calls", "contract_noise"]},
                 proofs=["matcher"],
@@ -237,7 +239,7 @@ PROPS = {
                 mc={"quick": ["grammar"], "thorough": ["grammar"]},
                 steps=[{"cmd": "c03", "judge": "J_C03", "cfg": "JudgeP.cfg", "tlcgen": "grammar_files"}]),
     "C04": dict(P("218 corpus payloads + generated files x (all truncations, extensions, single-byte substitutions - exhaustive at TLF bytes and for the smallest files -, element deletion / duplication / "
-                  "arity change / replacement, declared-length bombs, random multi-byte edits and splices), each with and without recomputed message checksums; every accepted input of the structural "
+                  "arity change / arity aliases (+16 / +256 / +4096 / +65536 in longer TLFs) / replacement, declared-length bombs up to 33 TLF bytes, tails (transport end sequence, escapes, stray bytes) at every message boundary, random multi-byte edits and splices), each with and without recomputed message checksums; every accepted input of the structural "
                   "classes and a hash sample of accepted data corruptions are judged against SmlGrammar.ParseFile"),
                 mc={"quick": ["grammar"], "thorough": ["grammar", "tlf_exact"]},
                 steps=[{"cmd": "c04", "judge": "J_C04", "cfg": "JudgeP.cfg"}]),
@@ -255,11 +257,11 @@ PROPS = {
                 mc={"quick": ["reader_faults_1", "link_1"], "thorough": ["reader_faults_1", "reader_faults_2", "reader_faults_3", "link_1", "link_2"]},
                 steps=[{"cmd": "c10", "judge": "J_C10", "cfg": "JudgeP.cfg"}]),
     "C11": dict(T("4 base streams (noise, frames with withheld zeros / literal escapes / re-alignment / bad checksum, cut frame, partial start sequence) x end of input at every (third) position x one fault of "
-                  "{would-block, interrupted, other} at every position x {next, read, next_nb, read_nb}; two faults exhaustively (thorough) or sampled; random 2-4 fault schedules; corpus frames with random "
+                  "{would-block, interrupted, other} at every position x {next, read, next_nb, read_nb}; two faults exhaustively (thorough) or sampled; runs of 2..300 interrupted / would-block results at one position; random 2-4 fault schedules; corpus frames with random "
                   "schedules; each record carries the fault-free run and the fresh-reader run on the remainder"),
                 mc={"quick": ["reader_faults_1", "reader_faults_2", "reader_faults_3", "reader_faults_eh"], "thorough": ["reader_faults_1", "reader_faults_2", "reader_faults_3", "reader_faults_eh"]},
                 steps=[{"cmd": "c11", "judge": "J_C11"}]),
-    "C12": dict(P("every 1- and 2-byte TLF, a strided (quick) / exhaustive (thorough) set of 3-byte TLFs, crafted 4-12 byte TLFs around 2^32 and the own-size subtraction, integers of width 0-9 with "
+    "C12": dict(P("every 1- and 2-byte TLF, a strided (quick) / exhaustive (thorough) set of 3-byte TLFs, 2- and 3-byte TLFs followed by exactly the declared number of data bytes, crafted 4-12 byte TLFs around 2^32 and the own-size subtraction, 16-33 byte TLFs beyond 2^64, 17-300 byte TLFs with zero nibbles, integers of width 0-9 with "
                   "boundary leading bytes, all boolean bytes - each at 8 field positions of a message template, observed through the streaming parser's events"),
                 mc={"quick": ["tlf_exact", "tlf_long"], "thorough": ["tlf_exact", "tlf_long", "grammar"]},
                 steps=[{"cmd": "c12", "judge": "J_C12", "cfg": "JudgeP.cfg"}]),
@@ -268,12 +270,12 @@ PROPS = {
                 proofs=["stream_abs"],
                 steps=[{"cmd": "c13", "judge": "J_C13", "cfg": "JudgeP.cfg"}]),
     "C18": dict({"rule": "operation sequences over push / extend_from_slice / truncate / clear / from_iter: every maximal behaviour TLC generates from MC_ArrayBuf (replayed into the real type), the harness' own "
-                         "exhaustive enumeration of depth 3 (4 in thorough) for N in 0..3 (and 4, Vec in thorough), random histories of up to 24 operations on N in {5,8,16,31,48,255,256} and Vec",
+                         "exhaustive enumeration of depth 3 (4 in thorough) for N in 0..3 (and 4, Vec in thorough), random histories of up to 24 operations on N in {5,8,16,31,48,255,256} and Vec; truncate arguments up to 2^31-1 (incl. 2^8, 2^16 and 2^24 plus small offsets)",
                  "assumptions": ["TLC evaluates ArrayBuf.IdealObs correctly", "std's Debug for slices is the reference for the Debug clause", "capacities limited to the ArrayBuf<N> instantiations compiled into the harness"]},
                 mc={"quick": ["arraybuf"], "thorough": ["arraybuf"]},
                 proofs=["arraybuf_ref"],
                 steps=[{"cmd": "c18", "judge": "J_C18", "tlcgen": "arraybuf_ops"}]),
-    "C17": dict(T("every stream of ADV / INFRAME / HIST / NOISE, corpus, mutations with push+finalize and SmlReader (iterator, io::Read); noise runs of 255..2^17+1 bytes; "
+    "C17": dict(T("every stream of ADV / INFRAME / PADX / NEARSTART / HIST / NOISE, corpus, mutations with push+finalize (growable buffer and fixed capacities 1/4/6/9) and SmlReader (iterator, io::Read); noise runs of 255..2^17+1 bytes; "
                   "both the overflow-checked and the wrapping (release) build; record = (length, event list)"),
                 mc={"quick": ["tiles_adv", "tiles_hist", "contract_hist"], "thorough": ["tiles_adv", "tiles_hist", "contract_hist", "sim_contract", "resync_noise"]},
                 proofs=["matcher"],
@@ -323,7 +325,7 @@ MANIFEST_TEXT = {
     "C05": _t("TLC checks TypeOK/BoundaryFresh of the decoder spec under every interleaving of push/finalize/reset with capacities {0,1,2,inf} and the encoder spec never reaching its assert arms; "
               "traces of the overflow-checked real build (panics recorded as events) are judged for absence of panic/runaway and for usability after every history.", "5/C05", "TLC model checking + TLC-judged trace validation (J_C05)"),
     "C07": _t("TLC checks both encoder state machines against Frame.Canonical (prefix, completeness, fusedness, pad counter, OOM iff capacity < frame length, termination under WF) and judges the real "
-              "encoders' output for ~20k payloads, long ones in run-length form.", "5/C07", "TLC model checking (incl. liveness) + Apalache inductive side-proof of the pad counter + TLC-judged trace validation (J_C07)"),
+              "encoders' output for ~20k payloads, long ones in run-length form.", "5/C07", "TLC model checking (incl. liveness) + Apalache inductive side-proof and TLAPS proof of the pad counter + TLC-judged trace validation (J_C07)"),
     "C08": _t("TLC checks MatcherExact and Resync on the decoder spec over noise/frames from every idle history, and judges the real decoder on all noise strings over {1b,01,55} up to the bound, random noise "
               "and every cut point of 265+ frames; the antecedent is evaluated by the monitor with the spec's own decoder.", "5/C08", "TLC model checking + Apalache inductive side-proof of the start matcher (unbounded noise) + TLC-judged trace validation (J_C08)"),
     "C14": _t("TLC checks BoundaryFresh and IdleStepEq (an idle spec decoder is state-equal to a new one and answers every byte identically) and judges, for every boundary in the recorded streams, "
